@@ -323,6 +323,7 @@ def trim_long_fields(
 
   def traverse(value, state: daglish.State):
     if isinstance(value, config_lib.Buildable):
+      value = copy.copy(value)  # Shallow copy to avoid mutating original.
       for argument in set(config_lib.ordered_arguments(value)):
         field = getattr(value, argument)
         if not isinstance(field, (config_lib.Buildable, list, tuple, dict)):
